@@ -204,9 +204,9 @@ Proof. induction pos as [|p pos IH]; [reflexivity|]. cbn. rewrite IH. reflexivit
 Definition bool_form (m : mask_arg) : Prop :=
   match m with MNone | MBoolArray _ => True | _ => False end.
 
-Theorem bool_masks_as_fixed : forall inp, bool_form (vi_site_mask inp) -> vcf_body inp = vcf_body_fixed inp.
+Theorem bool_masks_as_fixed : forall inp, bool_form (vi_site_mask inp) -> vcf_body_pinned inp = vcf_body_fixed inp.
 Proof.
-  intros inp H. unfold vcf_body, vcf_body_fixed, vcf_body_with.
+  intros inp H. unfold vcf_body_pinned, vcf_body_fixed, vcf_body_with.
   destruct (vi_site_mask inp) eqn:EM; try contradiction.
   - unfold selected_positions_as_coded, selected_positions_fixed. cbn [mask_bools].
     rewrite take_where_all. reflexivity.
@@ -264,7 +264,7 @@ Theorem masked_sites_irrelevant_bool_masks : forall inp inp',
   vi_allow_position_zero inp = vi_allow_position_zero inp' ->
   mask_bools (length (vi_sites inp)) (vi_site_mask inp) = mask_bools (length (vi_sites inp')) (vi_site_mask inp') ->
   agree (vi_sites inp) (vi_sites inp') (mask_bools (length (vi_sites inp)) (vi_site_mask inp)) ->
-  vcf_body inp = vcf_body inp'.
+  vcf_body_pinned inp = vcf_body_pinned inp'.
 Proof.
   intros inp inp' B B' Hc Hp Ha Hm Hag. rewrite !bool_masks_as_fixed by assumption.
   apply masked_sites_irrelevant_fixed; assumption.
@@ -283,12 +283,12 @@ Ltac wf_concrete :=
 
 (* An integer-array mask [1; 0] masks site 0.  Moving the MASKED site from position 3 to
    position 0 turns the output into a ValueError: `~[1, 0]` = [-2, -1] selects both sites. *)
-Theorem masked_site_position_zero_refuted : exists inp inp',
+Theorem masked_site_position_zero_pinned_refuted : exists inp inp',
   vi_contig inp = vi_contig inp' /\ vi_ploidies inp = vi_ploidies inp' /\
   vi_allow_position_zero inp = vi_allow_position_zero inp' /\ vi_site_mask inp = vi_site_mask inp' /\
   agree (vi_sites inp) (vi_sites inp') (mask_bools (length (vi_sites inp)) (vi_site_mask inp)) /\
   wf_input inp /\ wf_input inp' /\
-  vcf_body inp <> vcf_body inp' /\ vcf_body_fixed inp = vcf_body_fixed inp'.
+  vcf_body_pinned inp <> vcf_body_pinned inp' /\ vcf_body_fixed inp = vcf_body_fixed inp'.
 Proof.
   exists (mk_input [49] [1; 1] [site0 3; site0 5] (MIntArray [1; 0]) false),
          (mk_input [49] [1; 1] [site0 0; site0 5] (MIntArray [1; 0]) false).
@@ -299,10 +299,10 @@ Proof.
 Qed.
 
 (* the converse failure: an UNMASKED site at position 0 is written without the error *)
-Theorem unmasked_position_zero_missed_refuted : exists inp lines,
+Theorem unmasked_position_zero_missed_pinned_refuted : exists inp lines,
   wf_input inp /\ vi_allow_position_zero inp = false /\
   In (0, site0 0) (unmasked (vi_sites inp) (mask_bools (length (vi_sites inp)) (vi_site_mask inp))) /\
-  vcf_body inp = Ok lines /\ vcf_body_fixed inp = Err E_VALUE.
+  vcf_body_pinned inp = Ok lines /\ vcf_body_fixed inp = Err E_VALUE.
 Proof.
   exists (mk_input [49] [1; 1] [site0 0; site0 3; site0 7] (MIntArray [0; 1; 0]) false).
   eexists.
@@ -311,13 +311,36 @@ Proof.
 Qed.
 
 (* a python list (or tuple) as site_mask: TypeError whenever the check runs at all *)
-Theorem list_mask_typeerror : forall contig ps sites l,
+Theorem list_mask_typeerror_pinned : forall contig ps sites l,
   length l = length sites ->
-  vcf_body (mk_input contig ps sites (MPyList l) false) = Err E_TYPE.
+  vcf_body_pinned (mk_input contig ps sites (MPyList l) false) = Err E_TYPE.
 Proof.
-  intros. unfold vcf_body, vcf_body_with. cbn [vi_sites vi_site_mask mask_bools mk_input].
+  intros. unfold vcf_body_pinned, vcf_body_with. cbn [vi_sites vi_site_mask mask_bools mk_input].
   rewrite H, Nat.eqb_refl. reflexivity.
 Qed.
+
+(* ---- the model the correspondence evaluates is the repaired one ---- *)
+
+(* /repo now inverts self.site_mask (regenerated fact c16_poszero_uses_raw_site_mask =
+   false); reverting the fix in /repo breaks this lemma and with it the cone. *)
+Lemma current_is_fixed : vcf_body_current = vcf_body_fixed.
+Proof. reflexivity. Qed.
+
+Theorem vcf_lines_exact_current : forall inp lines, wf_input inp -> vcf_body_current inp = Ok lines ->
+  lines = map (fun x => line_text (vi_contig inp) (vi_ploidies inp) (fst x) (snd x))
+              (unmasked (vi_sites inp) (mask_bools (length (vi_sites inp)) (vi_site_mask inp))).
+Proof. rewrite current_is_fixed. exact vcf_lines_exact_fixed. Qed.
+
+Theorem vcf_body_current_spec : forall inp, wf_input inp -> vcf_body_current inp = spec_body inp.
+Proof. rewrite current_is_fixed. exact vcf_body_fixed_spec. Qed.
+
+Theorem masked_sites_irrelevant_current : forall inp inp',
+  vi_contig inp = vi_contig inp' -> vi_ploidies inp = vi_ploidies inp' ->
+  vi_allow_position_zero inp = vi_allow_position_zero inp' ->
+  mask_bools (length (vi_sites inp)) (vi_site_mask inp) = mask_bools (length (vi_sites inp')) (vi_site_mask inp') ->
+  agree (vi_sites inp) (vi_sites inp') (mask_bools (length (vi_sites inp)) (vi_site_mask inp)) ->
+  vcf_body_current inp = vcf_body_current inp'.
+Proof. rewrite current_is_fixed. exact masked_sites_irrelevant_fixed. Qed.
 
 (* non-vacuity of the positive theorems: a wf input with a masked 10-allele site, a
    sample mask and missing data, two individuals of ploidy 2 and 1 *)
@@ -329,9 +352,9 @@ Example body_example :
                 mk_site 9 [[71]] [0; 0; 0] None]
                (MBoolArray [true; false; false]) false in
   wf_input inp
-  /\ vcf_body inp = Ok [ [49; 9; 52; 9; 49; 9; 65; 9; 84; 84; 44; 9; 46; 9; 80; 65; 83; 83; 9; 46; 9; 71; 84; 9; 49; 124; 46; 9; 46; 10];
+  /\ vcf_body_pinned inp = Ok [ [49; 9; 52; 9; 49; 9; 65; 9; 84; 84; 44; 9; 46; 9; 80; 65; 83; 83; 9; 46; 9; 71; 84; 9; 49; 124; 46; 9; 46; 10];
                          [49; 9; 57; 9; 50; 9; 71; 9; 46; 9; 46; 9; 80; 65; 83; 83; 9; 46; 9; 71; 84; 9; 48; 124; 48; 9; 48; 10] ]
-  /\ vcf_body inp = spec_body inp.
+  /\ vcf_body_pinned inp = spec_body inp /\ vcf_body_current inp = spec_body inp.
 Proof.
-  cbv zeta. split; [wf_concrete | split; reflexivity].
+  cbv zeta. split; [wf_concrete | split; [|split]; reflexivity].
 Qed.
